@@ -482,6 +482,50 @@ def check_period(res, case, impl, model_line):
                                    case=full, observed=str(ivs[0][0]), required=str(nd(case['from']))))
 
 
+GRID_FROM = [None, (2020, 1, 1), (2020, 1, 8), (2020, 1, 29), (2020, 1, 30), (2020, 1, 31), (2020, 2, 28),
+             (2020, 2, 29), (2020, 3, 1), (2020, 3, 2)]
+GRID_TO = [None, (2020, 12, 31), (2021, 1, 1), (2021, 3, 1)]
+
+
+def grid_journal(ctx):
+    """a posting every third day from 2019-12-20 to 2021-03-15 plus every month end, month start and the leap day"""
+    dates = set()
+    d = datetime.date(2019, 12, 20)
+    while d <= datetime.date(2021, 3, 15):
+        dates.add(d)
+        d += datetime.timedelta(days=3)
+    for y, m in [(2019, 12)] + [(2020, m) for m in range(1, 13)] + [(2021, 1), (2021, 2)]:
+        dates.add(datetime.date(y, m, calendar.monthrange(y, m)[1]))
+        dates.add(datetime.date(y, m, 1))
+    posts = [(d, 100 + 7 * i) for i, d in enumerate(sorted(dates))]
+    lines = []
+    for i, (d, c) in enumerate(posts):
+        lines += ['%s g%d' % (d.strftime('%Y/%m/%d'), i), '    Assets:A    $%d.%02d' % (c // 100, c % 100), '    Equity:Open', '']
+    jn = dict(idx=-1, posts=posts, text='\n'.join(lines) + '\n', style='grid', path=ctx.path('grid.dat'))
+    open(jn['path'], 'w').write(jn['text'])
+    return jn
+
+
+def grid_cases(rng):
+    """the bounded-exhaustive stream: every duration 1-12 of every quantum and the named forms x from x to x
+    week start {Sunday, Monday} x --align-intervals"""
+    out = []
+    for q in 'dwmqy':
+        for n in range(1, 13):
+            for f in GRID_FROM:
+                for t in GRID_TO:
+                    for sow in (0, 1):
+                        for align in (False, True):
+                            if align and f is None:
+                                continue          # --align-intervals only matters with a from
+                            c = dict(q=q, n=n, sow=sow, align=align, empty=(n + sow) % 2 == 0)
+                            c['from'] = dn(datetime.date(*f)) if f else None
+                            c['to'] = dn(datetime.date(*t)) if t else None
+                            c['expr'] = expr_text(rng, c)
+                            out.append(c)
+    return out
+
+
 def cases_for(ctx, rng, n_reg, n_period, exhaustive):
     regs, periods = [], []
     combos = [(q, n) for q in 'dwmqy' for n in range(1, 13)]
@@ -535,10 +579,19 @@ def run(ctx, n_override=None):
                 c['to'] = c['from'] + rng.choice([1, 2, 45])
             c['expr'] = expr_text(rng, c)
         jobs.append((c, jn))
+    grid = grid_cases(rng)
+    if not exhaustive:
+        grid = rng.sample(grid, ctx.scale(400, len(grid)))
+    gj = grid_journal(ctx)
+    journals_by_idx = {jn['idx']: jn for jn in journals}
+    journals_by_idx[-1] = gj
+    for c in grid:
+        jobs.append((c, gj))
+    res.count('grid-cases', len(grid))
     with ThreadPoolExecutor(max_workers=min(8, lib.NCPU)) as ex:
         impl_reg = list(ex.map(lambda cj: run_reg(cj[0], cj[1]['path']), jobs))
         plain_keys = sorted({(jn['idx'], c['from'], c['to']) for c, jn in jobs}, key=str)
-        plain_vals = list(ex.map(lambda k: run_plain({'from': k[1], 'to': k[2]}, journals[k[0]]['path']), plain_keys))
+        plain_vals = list(ex.map(lambda k: run_plain({'from': k[1], 'to': k[2]}, journals_by_idx[k[0]]['path']), plain_keys))
         impl_period = list(ex.map(lambda c: run_period(c['expr']), periods))
     plain = dict(zip(plain_keys, plain_vals))
     lines = []
